@@ -181,13 +181,14 @@ pub struct Shards {
     pub events: u64,
     pub histories: u64,
     pub kinds: std::collections::BTreeMap<String, u64>,
+    pub classes: std::collections::BTreeMap<String, u64>,
 }
 impl Shards {
     pub fn new(prefix: &str, n: usize) -> Self {
         let files = (0..n)
             .map(|i| std::io::BufWriter::new(std::fs::File::create(format!("{}.{}.ndjson", prefix, i)).expect("create shard")))
             .collect();
-        Shards { files, cur: 0, events: 0, histories: 0, kinds: Default::default() }
+        Shards { files, cur: 0, events: 0, histories: 0, kinds: Default::default(), classes: Default::default() }
     }
     pub fn next_history(&mut self) {
         self.cur = (self.cur + 1) % self.files.len();
@@ -203,12 +204,17 @@ impl Shards {
         self.events += 1;
         *self.kinds.entry(kind.to_string()).or_insert(0) += 1;
     }
+    /// Coverage accounting only (never a verdict): how often a class of transition / state was exercised.
+    pub fn class(&mut self, name: &str) {
+        *self.classes.entry(name.to_string()).or_insert(0) += 1;
+    }
     pub fn finish(mut self) -> String {
         for f in &mut self.files {
             f.flush().unwrap();
         }
         let kinds: Vec<String> = self.kinds.iter().map(|(k, v)| format!("\"{}\":{}", k, v)).collect();
-        format!("{{\"events\":{},\"histories\":{},\"kinds\":{{{}}}}}", self.events, self.histories, kinds.join(","))
+        let classes: Vec<String> = self.classes.iter().map(|(k, v)| format!("\"{}\":{}", k, v)).collect();
+        format!("{{\"events\":{},\"histories\":{},\"kinds\":{{{}}},\"classes\":{{{}}}}}", self.events, self.histories, kinds.join(","), classes.join(","))
     }
 }
 
